@@ -25,6 +25,9 @@
 ///
 
 #include <primesieve/CpuInfo.hpp>
+#if defined(PRIMESIEVE_VERIF)
+#include <cstdlib>
+#endif
 #include <primesieve/macros.hpp>
 
 #include <algorithm>
@@ -631,9 +634,23 @@ std::size_t getThreads(const std::string& threadList,
 
 namespace primesieve {
 
+#if defined(PRIMESIEVE_VERIF)
+// Verification hook H2 (see /verif/DESIGN.md): lets the external harness present an
+// arbitrary (also malformed) /sys/devices/system/cpu tree to CpuInfo::init().
+// Unset = the real /sys.
+static std::string primesieve_verif_sysfs_root()
+{
+  const char* root = std::getenv("PRIMESIEVE_VERIF_SYSFS_ROOT");
+  return root ? std::string(root) : std::string();
+}
+#endif
+
 void CpuInfo::init()
 {
   std::string cpusOnline = "/sys/devices/system/cpu/online";
+#if defined(PRIMESIEVE_VERIF)
+  cpusOnline = primesieve_verif_sysfs_root() + cpusOnline;
+#endif
   logicalCpuCores_ = parseThreadList(cpusOnline);
 
   using CacheSize_t = std::size_t;
@@ -665,6 +682,9 @@ void CpuInfo::init()
     for (std::size_t i = 0; i <= 3; i++)
     {
       std::string path = "/sys/devices/system/cpu/cpu" + std::to_string(cpuId) + "/cache/index" + std::to_string(i);
+#if defined(PRIMESIEVE_VERIF)
+      path = primesieve_verif_sysfs_root() + path;
+#endif
       std::string cacheLevel = path + "/level";
       std::size_t level = getValue(cacheLevel);
 
@@ -703,6 +723,9 @@ void CpuInfo::init()
     for (std::size_t i = 0; i <= 3; i++)
     {
       std::string path = "/sys/devices/system/cpu/cpu" + std::to_string(cpuId) + "/cache/index" + std::to_string(i);
+#if defined(PRIMESIEVE_VERIF)
+      path = primesieve_verif_sysfs_root() + path;
+#endif
       std::string cacheLevel = path + "/level";
       std::size_t level = getValue(cacheLevel);
 
